@@ -160,8 +160,8 @@ PROPS = {
                 "align_indeterminants and outer (element (i, j) = a.ravel()[i] * b.ravel()[j], contracts/linalg.py), all proved from their source; "
                 "the reshape of that outer product to a.shape + b.shape is numpy's ndarray.reshape (axiom)). "
                 "Array-valued polynomial arguments are covered by three further cases (result[i ++ j] with the arguments' shapes "
-                "broadcasting). Numbers mixed with polynomial arguments, staged evaluation and machine-number "
-                "kinds: bounded run-time checks (conc/checks_c02.py, exact oracle).",
+                "broadcasting). Numbers mixed with polynomial arguments, staged evaluation, machine-number "
+                "kinds and array points spelled as Python lists / tuples: bounded run-time checks (conc/checks_c02.py, exact oracle).",
                 trusted_base=COMMON_TRUSTED + ["numpy axioms: ones/zeros, ufunc broadcasting, array ** integer element-wise, "
                                                "outer(a, b).reshape(a.shape + b.shape)[i ++ j] == a[i] * b[j]",
                                                "assumed shape-only contract of numpoly.polynomial(number)"],
@@ -170,7 +170,8 @@ PROPS = {
                              "numpy axiom: outer(a, b).reshape(a.shape + b.shape)[i ++ j] is outer(a, b)[position of i in a.ravel(), position of j in b.ravel()]; "
                              "B10 (a constant polynomial denotes the constant tonumpy returns)"],
                 not_decided=["numbers mixed with polynomial arguments, partial evaluation with array arguments, staged evaluation (bounded)",
-                             "independence of the numeric type carrying an argument (bounded)"]),
+                             "independence of the numeric type carrying an argument (bounded)",
+                             "array points spelled as (nested) Python lists or tuples (bounded; the proof models reals, arrays and polynomials)"]),
     "C04": dict(
         level="other",
         contracts=["numpoly.align_shape", "numpoly.align_indeterminants", "numpoly.align_exponents", "numpoly.align_polynomials"],
@@ -405,7 +406,9 @@ PROPS = {
         explanation="remove_redundant_coefficients / remove_redundant_names: exact selection rule (a term is kept iff it has a "
                     "non-zero coefficient or is the constant term; a name iff some term involves it; fallbacks) proved for any "
                     "number of terms/names. postprocess_attributes: raises PolynomialConstructionError exactly for the documented "
-                    "reasons, prunes as selected by the retain arguments or (symbolic) options. polynomial_from_attributes: result "
+                    "reasons (a repeated exponent among the rows as given counts whatever its coefficient: accepted attributes have "
+                    "pairwise distinct rows before and after pruning), prunes as selected by the retain arguments or (symbolic) options. "
+                    "polynomial_from_attributes: result "
                     "is fresh, well-formed (WF), carries the post-processed rows/names, requested dtype, every coefficient written "
                     "(both compiled and numpy path, and the empty case). clean_attributes: cannot fail on a WF polynomial under any "
                     "option setting and keeps the abstract value. Regeneration: polynomial(todict()) and polynomial(raw structured view, "
